@@ -112,4 +112,41 @@ theorem hampel_shift (cfg : HampelCfg) (c : Int) (z : Series) :
       congr 1
       exact foldl_hampelWindow_shift cfg c _ z
 
+-- `return_bool`: the flags stay on the time points of the filtered series ---------------------------
+
+theorem hampelFlags_labels (z : Series) : labels (hampelFlags z) = labels z := by
+  simp [labels, hampelFlags, List.map_map, Function.comp_def]
+
+theorem hampelFlags_shift (c : Int) (z : Series) :
+    hampelFlags (shiftSeries c z) = shiftSeries c (hampelFlags z) := by
+  simp [hampelFlags, shiftSeries, List.map_map, Function.comp_def]
+
+/-- the filter with either value of `return_bool` returns exactly the input's labels -/
+theorem hampelOut_labels (p : HampelPar) (z out : Series) (h : hampelOut p z = .ok out) :
+    labels out = labels z := by
+  unfold hampelOut at h
+  cases hr : hampel p.cfg z with
+  | error e => rw [hr] at h; cases h
+  | ok r =>
+    rw [hr] at h
+    have hl := hampel_labels p.cfg z r hr
+    injection h with h
+    subst h
+    split
+    · rw [hampelFlags_labels, hl]
+    · exact hl
+
+/-- the filter with either value of `return_bool` is shift-equivariant -/
+theorem hampelOut_shift (p : HampelPar) (c : Int) (z : Series) :
+    hampelOut p (shiftSeries c z) = (hampelOut p z).map (shiftSeries c) := by
+  unfold hampelOut
+  rw [hampel_shift]
+  cases hampel p.cfg z with
+  | error e => rfl
+  | ok r =>
+    simp only [Except.map]
+    split
+    · rw [hampelFlags_shift]
+    · rfl
+
 end SkVerif.Lem.ST
